@@ -111,6 +111,8 @@ pub struct CfgProfile {
     /// force 6 decimals (twin deployments)
     pub six_decimals: bool,
     pub alien: bool,
+    /// traders 1 and 2 get long addresses sharing all but the last byte
+    pub long_names: bool,
 }
 
 impl CfgProfile {
@@ -128,6 +130,7 @@ impl CfgProfile {
             odd_vamms: false,
             six_decimals: false,
             alien: false,
+            long_names: false,
         }
     }
 }
@@ -255,6 +258,8 @@ pub fn world_cfg_strategy(p: &CfgProfile) -> BoxedStrategy<WorldCfg> {
                     whitelist_whale: wl && p.caps,
                     alien: p.alien,
                     orphan: false,
+                    poor_unlimited_allowance: false,
+                    long_names: p.long_names,
                     }
                 })
         })
